@@ -71,7 +71,13 @@ func genC12(tier string, rng *Rng) {
 		{"err", []Item{textItem("ErrorMsg=Panel is locked to another IP\n")}},
 		{"errnolf", []Item{textItem("ErrorMsg=busy")}},
 		{"err2", []Item{textItem("ErrorMsg=Max clients reached\n"), textItem("RDY\n")}},
+		{"erreq", []Item{textItem("ErrorMsg=Connection refused: _serverModeMaxClients=1 reached, locked to IP=10.0.0.5\n")}},
+		{"errpct", []Item{textItem("ErrorMsg=100% busy; try \"later\" (a|b) \\ %d ErrorMsg=x\n")}},
+		{"errcr", []Item{textItem("ErrorMsg= spaced out \r\n"), textItem("list\n")}},
 		{"text", []Item{textItem("nack\n")}},
+		{"textlist", []Item{textItem("list\n")}},
+		{"textbsy", []Item{textItem("BSY\n")}},
+		{"texteq", []Item{textItem("ActivePanel=1\n")}},
 		{"short", []Item{textItem("ok")}},
 		{"junk", []Item{{Kind: "raw", Data: Lit([]byte{9, 0, 0, 0, 8, 2})}}},
 		{"ack1", []Item{{Kind: "raw", Data: Lit(append(append([]byte{2, 0, 0, 0}, ackPayload...), 0))}}},
